@@ -84,9 +84,99 @@ func (e *OpEngine) RunInstance(c *Call) {
 			}
 		})
 		if err != nil {
+			// the shape engine summarises element data and keeps sizes symbolic; code that touches the data outside
+			// the recognised data layer, or loops over a size, cannot be followed that way.  Decide the instance on
+			// concrete sizes instead (every size atom 2 or 3; labelled elements when the data is needed).
+			err = e.concreteFallback(err, func() error {
+				_, err2 := e.M.Explore(maxPaths, func() {
+					e.Begin()
+					sym.ActiveFacts = nil
+					args := c.Build(e)
+					e.curMethod = c.Fn.Name()
+					e.curExpanding = e.expanding(c.Fn.Name(), args)
+					e.curLabel = c.Label + " (concrete sizes)"
+					if fc.Facts != nil {
+						sym.ActiveFacts = fc.Facts(e)
+					}
+					defer func() { sym.ActiveFacts = nil }()
+					e.baseline, e.watch = e.M.CellSeq(), true
+					out := e.M.Run(func() interp.Value { return e.M.Call(c.Fn, args, nil) })
+					e.watch = false
+					e.Paths++
+					switch out.Kind {
+					case interp.Panicked:
+						e.find("S6.panic", key, "panic:"+panicClass(out.Panic.Msg), e.P.Pos(out.Panic.Pos),
+							fmt.Sprintf("public call panics in %s: %s [instance %s, concrete sizes]", shortFn(out.Panic.Fn), out.Panic.Msg, c.Label))
+						return
+					case interp.Diverged:
+						e.find("S6.hang", key, "no-termination", e.P.FuncPos(c.Fn), "step budget exhausted: possible non-termination [instance "+c.Label+", concrete sizes]")
+						return
+					}
+					if c.OnReturn != nil {
+						c.OnReturn(e, out)
+					}
+					for _, n := range e.nodes {
+						if n.OK {
+							e.checkNode(n, c, fc.Name)
+						}
+					}
+				})
+				return err2
+			})
+		}
+		if err != nil {
 			e.undecided("interp", key, "unsupported", e.P.FuncPos(c.Fn), fmt.Sprintf("%v [instance %s]", err, c.Label))
 		}
 	}
+}
+
+// concreteFallback re-runs an instance whose symbolic interpretation failed with err: first with the sizes pinned
+// (data layer still summarised), then - if element data is what stopped it - with labelled elements and the whole
+// implementation interpreted.  It returns nil when an attempt got through, the original error otherwise.
+func (e *OpEngine) concreteFallback(err error, run func() error) error {
+	if e.concreteSizes || !fallbackWorthy(err) {
+		return err
+	}
+	attempts := []bool{needsData(err)}
+	if !attempts[0] {
+		attempts = append(attempts, true)
+	}
+	cur := err
+	for _, withData := range attempts {
+		if withData && !needsData(cur) {
+			break
+		}
+		e.concreteSizes, e.atomSize = true, map[string]int64{}
+		e.M.PinAtoms = e.atomSize
+		saveDM, saveNC := e.dataMode, e.noCompare
+		e.dataMode, e.noCompare = withData, true
+		before := len(e.Findings)
+		err2 := run()
+		e.concreteSizes, e.atomSize, e.dataMode, e.noCompare = false, nil, saveDM, saveNC
+		e.M.PinAtoms = nil
+		if err2 == nil {
+			e.ConcreteFallbacks++
+			return nil
+		}
+		// this attempt could not follow the code either: drop what it added
+		e.Findings = e.Findings[:before]
+		cur = err2
+	}
+	return err
+}
+
+// needsData: the failure was about element data (labelled data must be built); otherwise pinning the sizes is
+// enough and the data layer stays summarised.
+func needsData(err error) bool {
+	msg := err.Error()
+	return strings.Contains(msg, "opaque") || strings.Contains(msg, "data-layer function")
+}
+
+// fallbackWorthy: the interpretation stopped at element data the shape engine had summarised.
+func fallbackWorthy(err error) bool {
+	msg := err.Error()
+	return strings.Contains(msg, "opaque data") || strings.Contains(msg, "data-layer function") || strings.Contains(msg, "opaque") ||
+		strings.Contains(msg, "used as a length or index over a wide range") || strings.Contains(msg, "loop whose bound is a symbolic integer")
 }
 
 func shortFn(s string) string { return strings.ReplaceAll(s, core.ModPath+"/", "") }
@@ -562,9 +652,27 @@ func leafValEdge(salt int) func(name string, idx []int64) float64 {
 // 0 when none was found (undecided).  It evaluates the two EXTRACTED FORMULAS, never repository code.
 // sameExpr: equal normal forms, or equal in every region of the index space cut out by the integer
 // conditions of their indicator functions (piecewise results of Concat / Slice / Patch compositions).
+// pinned substitutes the size atoms fixed by the concrete-size fallback.
+func (e *OpEngine) pinned(x sym.Expr) sym.Expr {
+	if !e.concreteSizes || len(e.atomSize) == 0 {
+		return x
+	}
+	m := map[string]sym.Poly{}
+	for a, v := range e.atomSize {
+		m[a] = sym.PInt(v)
+	}
+	return x.SubstIdx(m)
+}
+
 func (e *OpEngine) sameExpr(got, want sym.Expr, dims []sym.Poly) bool {
 	if got.Key() == want.Key() {
 		return true
+	}
+	if e.concreteSizes {
+		got, want = e.pinned(got), e.pinned(want)
+		if got.Key() == want.Key() {
+			return true
+		}
 	}
 	ctx := append([]sym.Constraint{}, e.M.PathConstraints()...)
 	for i, d := range dims {
@@ -579,6 +687,7 @@ func (e *OpEngine) sameExpr(got, want sym.Expr, dims []sym.Poly) bool {
 }
 
 func (e *OpEngine) numericCompare(got, want sym.Expr, dims []sym.Poly) (int, string) {
+	got, want = e.pinned(got), e.pinned(want)
 	cs := e.M.PathConstraints()
 	// special points: zeros/ones/negatives, plus every constant of either formula and its neighbours
 	edges := append([]float64{}, edgeVals...)
